@@ -817,6 +817,86 @@ fn scenario_power_levels(vname: &str, rules: &AuthorizationRules, thorough: bool
     }
 }
 
+/// Third-party invites (rule 4.3.1): an `invite` member event whose content carries `third_party_invite.signed`.
+/// Allowed iff the target is not banned, `signed.mxid` is the target, the state has an m.room.third_party_invite event
+/// under `signed.token` sent by the same sender, and some signature in `signed.signatures` verifies `signed` under one of
+/// that event's public keys. Real Ed25519 keys and signatures are used.
+fn scenario_tpi(vname: &str, rules: &AuthorizationRules, acc: &mut Acc) {
+    use ruma_common::{serde::Base64, CanonicalJsonObject};
+    use ruma_signatures::{sign_json, Ed25519KeyPair};
+    let kp = |v: &str| Ed25519KeyPair::from_der(&Ed25519KeyPair::generate().unwrap(), v.to_owned()).unwrap();
+    let good = kp("0");
+    let other = kp("0");
+    let pk = |k: &Ed25519KeyPair| Base64::<ruma_common::serde::base64::Standard, _>::new(k.public_key().to_vec()).encode();
+    for target_membership in MEMBERSHIPS {
+        for mxid in [C, B, "", "@c:o", "@c:s2"] {
+            for (token_in_event, token_in_state) in [("tok", "tok"), ("tok", "other"), ("", "tok")] {
+                for tpi_sender in [B, A] {
+                    // who signed / which keys the state event lists
+                    for (signer, listed) in [(Some(&good), vec![&good]), (Some(&other), vec![&good]), (Some(&good), vec![&other, &good]), (None, vec![&good]), (Some(&good), vec![])] {
+                        for sender_membership in ["join", "leave"] {
+                            let mut signed: CanonicalJsonObject = CanonicalJsonObject::new();
+                            if !mxid.is_empty() {
+                                signed.insert("mxid".into(), mxid.into());
+                            }
+                            if !token_in_event.is_empty() {
+                                signed.insert("token".into(), token_in_event.into());
+                            }
+                            match signer {
+                                Some(k) => sign_json("idserver", k, &mut signed).unwrap(),
+                                None => {
+                                    signed.insert("signatures".into(), serde_json::from_value(json!({"idserver": {"ed25519:0": "AAAA"}})).unwrap());
+                                }
+                            }
+                            let content = json!({"membership": "invite", "third_party_invite": {"display_name": "x", "signed": serde_json::to_value(&signed).unwrap()}});
+                            let st = St {
+                                create: Some((A.into(), true, None)),
+                                pl: None,
+                                join_rule: Some("invite".into()),
+                                members: members(&[(B, sender_membership), (C, target_membership), (A, "join")]),
+                            };
+                            let mut rst = render_state(&st);
+                            let mut keys = Map::new();
+                            if let Some(first) = listed.first() {
+                                keys.insert("public_key".into(), json!(pk(first)));
+                            }
+                            keys.insert("public_keys".into(), Value::Array(listed.iter().skip(1).map(|k| json!({"public_key": pk(k)})).collect()));
+                            let none: [String; 0] = [];
+                            rst.insert(
+                                (StateEventType::RoomThirdPartyInvite, token_in_state.to_owned()),
+                                pdu("$tpi", tpi_sender, "m.room.third_party_invite", Some(token_in_state), &Value::Object(keys), &none, &none, None, "!r:s"),
+                            );
+                            let ev = base_ev("m.room.member", B, Some(C), content);
+                            // the rules
+                            let want = target_membership != "ban"
+                                && mxid == C
+                                && !token_in_event.is_empty()
+                                && token_in_event == token_in_state
+                                && tpi_sender == B
+                                && signer.is_some_and(|s| listed.iter().any(|l| l.public_key() == s.public_key()));
+                            acc.n += 1;
+                            if want {
+                                acc.accepted += 1;
+                            }
+                            match real(rules, &rst, &ev) {
+                                Err(_) => acc.fp.push(describe(vname, &st, &ev, json!("panic"), want)),
+                                Ok(got) => {
+                                    if got != want && acc.f.len() < 25 {
+                                        let mut d = describe(vname, &st, &ev, json!(got), want);
+                                        d["third_party_invite_state_event"] = json!({"state_key": token_in_state, "sender": tpi_sender, "keys_listed": listed.len(),
+                                            "signed_by_a_listed_key": signer.is_some_and(|s| listed.iter().any(|l| l.public_key() == s.public_key()))});
+                                        acc.f.push(d);
+                                    }
+                                }
+                            }
+                        }
+                    }
+                }
+            }
+        }
+    }
+}
+
 /// C20: each RoomPowerLevels helper answers yes exactly when the REAL auth_check accepts the corresponding event from
 /// that user as a joined member of a room with those power levels (room versions 3-11), and for notifications when the
 /// real push condition `sender_notification_permission` holds.
@@ -932,7 +1012,7 @@ pub fn run(tier: &str) -> Report {
     ];
     let handles: Vec<_> = versions
         .into_iter()
-        .flat_map(|(vn, r)| (0..5).map(move |part| (vn, r.clone(), part)))
+        .flat_map(|(vn, r)| (0..6).map(move |part| (vn, r.clone(), part)))
         .map(|(vn, rules, part)| {
             std::thread::spawn(move || {
                 let mut acc = Acc { n: 0, accepted: 0, fsel: vec![], f: vec![], fp: vec![] };
@@ -941,15 +1021,16 @@ pub fn run(tier: &str) -> Report {
                     1 => scenario_generic(vn, &rules, &mut acc),
                     2 => scenario_power_levels(vn, &rules, thorough, &mut acc),
                     3 => scenario_create(vn, &rules, &mut acc),
-                    _ => scenario_helpers(vn, &rules, &mut acc),
+                    4 => scenario_helpers(vn, &rules, &mut acc),
+                    _ => scenario_tpi(vn, &rules, &mut acc),
                 }
                 (part, acc)
             })
         })
         .collect();
-    let mut n = [0u64; 5];
-    let mut acc_n = [0u64; 5];
-    let mut f: [Vec<Value>; 5] = Default::default();
+    let mut n = [0u64; 6];
+    let mut acc_n = [0u64; 6];
+    let mut f: [Vec<Value>; 6] = Default::default();
     let mut fp = vec![];
     let mut fsel = vec![];
     for h in handles {
@@ -979,12 +1060,13 @@ pub fn run(tier: &str) -> Report {
     let total: u64 = n.iter().sum();
     let _ = total;
     // vacuity guard: every scenario must contain events the rules accept and events they reject
-    for part in 0..5 {
+    for part in 0..6 {
+        if part == 4 && n[4] == 0 { continue; }
         if acc_n[part] == 0 || acc_n[part] == n[part] {
             fp.push(json!({"observed": format!("scenario {part} is vacuous: {} of {} cases accepted by the rules", acc_n[part], n[part])}));
         }
     }
-    let [f0, f1, f2, f3, f4] = f;
+    let [f0, f1, f2, f3, f4, f5] = f;
     Report {
         bound: format!(
             "7 distinct AuthorizationRules (room versions 1-11) x membership transitions: {} cases (2 senders x 3 targets x 6x6 current memberships x 5{} power-level shapes x levels {{0,50,100}}^2 x 7 join rules x 6 memberships x authorising user x prev_events shapes); other event types: {} cases; power-level changes: {} cases (7 fields + events/notifications/users entries x 7x7 current/new values incl. string and malformed levels x sender level in {}); create: {} cases; accepted by the rules: {:?} of {:?}",
@@ -997,6 +1079,7 @@ pub fn run(tier: &str) -> Report {
             ("power_level_changes_accepted_exactly_as_the_rules_say", n[2], f2),
             ("room_creation_accepted_exactly_as_the_rules_say", n[3], f3),
             ("power_level_helpers_answer_as_auth_check_decides", n[4], f4),
+            ("third_party_invites_accepted_exactly_as_the_rules_say", n[5], f5),
             ("decision_depends_only_on_the_selected_auth_state_entries", total, fsel),
             ("auth_check_never_panics", total, fp),
         ],
